@@ -992,6 +992,9 @@ def local_variants(r, v, sub=False, setlike=False, ints=True):
                 out.insert(0, (A(b.reshape(arr.shape)), "[axis]-tiny"))
         if arr.ndim == 2 and arr.shape[0] > 3 and not sub:
             out.append((A(arr[:-1]), "drop last row"))
+        if arr.ndim == 2 and arr.shape[0] >= 3 and not sub and not np.array_equal(arr[0], arr[-1]):
+            # the same points, the list started at another one (for a ring: the same region, other vertex data)
+            out.append((A(np.roll(arr, -r.choice([1, 2]), axis=0)), "rows rolled"))
         return out
     if "set" in v or "ids" in v:
         key = "set" if "set" in v else "ids"
